@@ -237,3 +237,9 @@ def check_reader(op, s, r, out):
         # a zero IPv6 payload length means "to the end of the slice"; a reader has no such end
         return
     out.append((op + "-verdict-differs", {"slice": s[:500], "read": r[:500]}))
+
+
+def search(rng, corr_failures, run_cases):
+    import sys
+
+    return D.search_decode(sys.modules[__name__], rng, corr_failures, run_cases)
